@@ -132,3 +132,12 @@ Definition corrp (T : tables) (c : bytes * lz_table * crc_table * pexpect) : boo
       && list_eqb file_eqb (combine (file_infos (p_files st) (p_sizes st)) (p_files st)) fs
   | _, _ => false
   end.
+
+(* ------------------------------------------------------------------ the Coq serialiser (C10/Ser.v) against the harness's writer:
+   (header description, digest bytes, EmptyFile vector bytes, attributes written?, pack area, crc32 calls,
+    header bytes written by the Python writer, whole archive written by the Python writer) *)
+From S2T Require Import C10.Ser.
+Definition corrs (c : header * option bytes * option bytes * bool * bytes * crc_table * bytes * bytes) : bool :=
+  let '(h, crcs, ef, wa, area, tbl, hb, arch) := c in
+  str_eqb (ser_header h crcs ef wa) hb && str_eqb (archive_bytes (crc_find tbl) area hb) arch
+  && wf_header h crcs ef wa && wf_archive (crc_find tbl) area hb.
